@@ -65,6 +65,9 @@ pub struct RecRead {
     pub description: Option<String>,
     /// width x K values
     pub matrix: Vec<Vec<f32>>,
+    /// a derived accessor of the record (`into_matrix`, TRANSFAC `to_counts`) disagreeing with the
+    /// matrix above: what it gave (always `None` on the model side)
+    pub derived: Option<String>,
 }
 
 // ---------------------------------------------------------------------------
@@ -293,9 +296,9 @@ pub fn expected(f: &FileModel) -> Vec<RecRead> {
                 }
             }
             match f.format {
-                Format::Jaspar | Format::Jaspar16 => RecRead { id: Some(r.id.clone()), accession: None, name: None, description: r.description.clone(), matrix },
-                Format::Transfac => RecRead { id: Some(r.id.clone()), accession: r.accession.clone(), name: r.name.clone(), description: r.description.clone(), matrix },
-                Format::Uniprobe => RecRead { id: Some(r.id.clone()), accession: None, name: None, description: None, matrix },
+                Format::Jaspar | Format::Jaspar16 => RecRead { id: Some(r.id.clone()), accession: None, name: None, description: r.description.clone(), matrix, derived: None },
+                Format::Transfac => RecRead { id: Some(r.id.clone()), accession: r.accession.clone(), name: r.name.clone(), description: r.description.clone(), matrix, derived: None },
+                Format::Uniprobe => RecRead { id: Some(r.id.clone()), accession: None, name: None, description: None, matrix, derived: None },
             }
         })
         .collect()
@@ -425,6 +428,11 @@ fn read_typed<A: Alphabet>(format: Format, stream: Box<dyn BufRead>, cap: usize)
             name: None,
             description: r.description().map(String::from),
             matrix: rows_of::<u32, A>(r.matrix().matrix()),
+            derived: {
+                let m = rows_of::<u32, A>(r.matrix().matrix());
+                let by_value = rows_of::<u32, A>(r.clone().into_matrix().matrix());
+                if by_value != m { Some(format!("into_matrix() = {:?}", by_value)) } else { None }
+            },
         }),
         Format::Transfac => drive(lightmotif_io::transfac::read::<_, A>(stream), cap, |r| RecRead {
             id: r.id().map(String::from),
@@ -432,6 +440,19 @@ fn read_typed<A: Alphabet>(format: Format, stream: Box<dyn BufRead>, cap: usize)
             name: r.name().map(String::from),
             description: r.description().map(String::from),
             matrix: r.data().map(|d| rows_of::<f32, A>(d)).unwrap_or_default(),
+            derived: r.data().and_then(|d| {
+                let m = rows_of::<f32, A>(d);
+                let integral = m.iter().flatten().all(|x| x.fract() == 0.0 && *x >= 0.0 && *x < 2147483648.0);
+                match (integral, r.to_counts()) {
+                    (true, Some(c)) => {
+                        let cm = rows_of::<u32, A>(c.matrix());
+                        if cm != m { Some(format!("to_counts() = {:?}", cm)) } else { None }
+                    }
+                    (true, None) => Some("to_counts() = None for integral data".to_string()),
+                    (false, Some(_)) if m.iter().flatten().any(|x| x.fract() != 0.0) => Some("to_counts() = Some(..) for fractional data".to_string()),
+                    _ => None,
+                }
+            }),
         }),
         Format::Uniprobe => drive(lightmotif_io::uniprobe::read::<_, A>(stream), cap, |r| RecRead {
             id: Some(r.id().to_string()),
@@ -439,6 +460,11 @@ fn read_typed<A: Alphabet>(format: Format, stream: Box<dyn BufRead>, cap: usize)
             name: None,
             description: None,
             matrix: rows_of::<f32, A>(r.matrix().matrix()),
+            derived: {
+                let m = rows_of::<f32, A>(r.matrix().matrix());
+                let by_value = rows_of::<f32, A>(r.clone().into_matrix().matrix());
+                if by_value != m { Some(format!("into_matrix() = {:?}", by_value)) } else { None }
+            },
         }),
     }
 }
@@ -452,6 +478,11 @@ pub fn read_all(format: Format, abc: Abc, stream: Box<dyn BufRead>, cap: usize) 
             name: None,
             description: r.description().map(String::from),
             matrix: rows_of::<u32, Dna>(r.matrix().matrix()),
+            derived: {
+                let m = rows_of::<u32, Dna>(r.matrix().matrix());
+                let by_value = rows_of::<u32, Dna>(lightmotif::pwm::CountMatrix::<Dna>::from(r.clone()).matrix());
+                if by_value != m || rows_of::<u32, Dna>(AsRef::<lightmotif::pwm::CountMatrix<Dna>>::as_ref(&r).matrix()) != m { Some(format!("CountMatrix::from(record) = {:?}", by_value)) } else { None }
+            },
         }),
         (f, Abc::Dna) => read_typed::<Dna>(f, stream, cap),
         (f, Abc::Protein) => read_typed::<Protein>(f, stream, cap),
@@ -621,6 +652,9 @@ fn diff(format: Format, got: &ReadOutcome, want: &[RecRead], how: &str) -> Optio
                 format!("{}: record #{}: read id={:?} ac={:?} na={:?} de={:?}, written id={:?} ac={:?} na={:?} de={:?}", how, i, g.id, g.accession, g.name, g.description, w.id, w.accession, w.name, w.description),
             ));
         }
+        if let Some(d) = &g.derived {
+            return Some(Failure::new(format!("{}:derived-accessor", f), format!("{}: record #{}: {} but the record's matrix is {:?}", how, i, d, g.matrix)));
+        }
         if g.matrix != w.matrix {
             let at = (0..w.matrix.len().min(g.matrix.len())).find(|&p| g.matrix[p] != w.matrix[p]);
             return Some(Failure::new(
@@ -641,7 +675,7 @@ impl Sub for RoundTrip {
         "roundtrip"
     }
     fn rule(&self) -> &'static str {
-        "model list of 1..40 (quick) / ..400 (thorough) records -> own writer per format (JASPAR raw, JASPAR 2016, TRANSFAC, UniPROBE; DNA and protein where supported; ids / accession / name / description present or absent incl. multi-byte UTF-8; width 1..30; counts to u32::MAX; symbol lines / columns in any order and possibly missing; separator runs of blanks and tabs; LF or CRLF; optional VV block, XX lines, blank lines where the format allows) -> bytes -> reader over 3 generated chunkings (1-byte chunks, fixed, cyclic patterns, BufReader capacity 1..8192, whole); records read must equal the model (count, order, every field, every cell, unnamed columns 0) and then None twice; non-trivial = >= 2 records and a chunking whose chunks are shorter than the file"
+        "model list of 1..40 (quick) / ..400 (thorough) records -> own writer per format (JASPAR raw, JASPAR 2016, TRANSFAC, UniPROBE; DNA and protein where supported; ids / accession / name / description present or absent incl. multi-byte UTF-8; width 1..30; counts to u32::MAX; symbol lines / columns in any order and possibly missing; separator runs of blanks and tabs; LF or CRLF; optional VV block, XX lines, blank lines where the format allows) -> bytes -> reader over 3 generated chunkings (1-byte chunks, fixed, cyclic patterns, BufReader capacity 1..8192, whole); records read must equal the model (count, order, every field, every cell, unnamed columns 0), the by-value / derived accessors (into_matrix, CountMatrix::from(record), TRANSFAC to_counts for integral data) must agree with the matrix, and then None twice; non-trivial = >= 2 records and a chunking whose chunks are shorter than the file"
     }
     fn cases(&self, tier: Tier) -> u64 {
         tier.pick(20_000, 400_000)
